@@ -42,7 +42,7 @@ def run(rep, props, replay=None):
     rng = np.random.default_rng([C.seed(), 18])
     runq = C.CoqRun("C18", IMPORTS, shard=6)
     todo = []
-    domains = [(0.0, 1.0), (-1.0, 1.0), (1.0, 365.0), (100.0, 101.0), (-3.5, 0.25)]
+    domains = [(0.0, 1.0), (-1.0, 1.0), (1.0, 365.0), (-2.0, 0.0), (100.0, 101.0), (-3.5, 0.25), (0.0, 2.5)]
     for idx, (p, nf) in enumerate(bs_cases(rng, quick)):
         a, b = domains[idx % len(domains)]
         nseg = nf - p
@@ -53,6 +53,8 @@ def run(rep, props, replay=None):
             u = np.unique(np.concatenate([u, np.arange(nseg + 1) / nseg if nseg & (nseg - 1) == 0 else [0.5]]))
         xs = a + (b - a) * u
         xs[0], xs[-1] = a, b
+        if idx % 2 == 1 and len(xs) >= 5:
+            xs = xs[1:-1]           # a grid strictly inside the domain: the domain is what was asked for, not the grid's range
         with warnings.catch_warnings():
             warnings.simplefilter("ignore")
             Bm = np.asarray(_basis_bsplines(xs, n_functions=nf, degree=p, domain_min=a, domain_max=b), float)
